@@ -106,7 +106,7 @@ func connCtxDone(v ssa.Value) bool {
 		return false
 	}
 	_, fld, ok := fieldAddrOf(u.X)
-	return ok && fld.Name() == "ctx"
+	return ok && fname(fld) == "ctx"
 }
 
 type concCtx struct {
@@ -335,7 +335,7 @@ func (c *concCtx) k6Releasable() {
 			return
 		}
 		if u, ok := call.Call.Value.(*ssa.UnOp); ok {
-			if _, fld, ok := fieldAddrOf(u.X); ok && fld.Name() == "cancel" && cancel == nil {
+			if _, fld, ok := fieldAddrOf(u.X); ok && fname(fld) == "cancel" && cancel == nil {
 				cancel = call
 				return
 			}
